@@ -1677,9 +1677,22 @@ def parts(ctx):
     except Exception:  # noqa: BLE001 - a broken tree shows up as failures of the cases, not here
         pass
     n_quick = 500
+    # one tuple per specification class with *every* assignable register given a value (two value modes): a register that is lost
+    # on the way (a tail cut off on parse, a word outside its group) cannot hide behind the draw of a few registers
+    full = []
+    seen = set()
+    for t in s["tuples"]:
+        m = _model(t)
+        if m.class_key in seen or not _values_domain(m):
+            continue
+        seen.add(m.class_key)
+        for j, mode in enumerate(("random", "max")):
+            full.append({"dev": t["dev"], "rev": t["rev"], "area": t["area"], "sub": t["sub"], "k": 100000, "first": 0,
+                         "mode": mode if mode in MODES else MODES[0], "spell": "mixed", "whole": 0, "seed": 1000 + 2 * len(full) + j})
     return [
         EnumPart("defaults", _tuples_count, _tuples_item, run_defaults),
         HypPart("values", _values_strategy, run_values, {"quick": n_quick, "thorough": 30000}),
+        EnumPart("values_full", lambda tier: len(full), lambda tier, i: dict(full[i]), run_values),
         EnumPart("reconfigure", lambda tier: len(_reconf_items()), lambda tier, i: _reconf_items()[i], run_reconfigure),
         EnumPart("memcfg_rules", lambda tier: len(_memcfg_rule_items()), lambda tier, i: _memcfg_rule_items()[i], run_memcfg_rules),
     ]
